@@ -2,14 +2,14 @@ CONSTANTS
  Tags = {"t1", "t2"}
  Mans = {"m1", "m2"}
  TagOrder <- MCTagOrder
- Procs = {"p1", "p2", "p3"}
- Confs <- LayShared
- MaxOps = 1
+ Procs = {"p1"}
+ Confs <- OldFullName
+ MaxOps = 2
  OpTags = {"t1", "t2"}
  OpMans = {"m1", "m2"}
- OpKinds <- HeadRaceKinds
+ OpKinds <- AllKinds
  UseMutex = TRUE
  FreshPH = TRUE
 SPECIFICATION Spec
-INVARIANTS HeadStable
+INVARIANTS NoViol Glue Quiescent LayoutGlue WellFormed CacheCoherent GetStable HeadStable
 CHECK_DEADLOCK FALSE
